@@ -53,11 +53,20 @@ BRK = ["[[b@]]", "[=[b@]=]", "[=[x]]@]=]", "[[b @ c]]", "[==[]=]@]==]", "[[(@]]"
 POOL = UNQ + UNQ + QUO + BRK
 
 
+def all_cmds():
+    """user commands whose names collide with the aggregator's `process_<name>` dispatch (read from the tree under test) first"""
+    from vlib.cminx_run import dispatch_collisions
+    return [c for c in dispatch_collisions() if c not in CMDS] + CMDS
+
+
 def strategy(tier):
-    p = G.Profile(kinds={"generic"}, generic_cmds=CMDS, arg_pool=POOL, group_depth=3, max_args=6,
+    p = G.Profile(kinds={"generic"}, generic_cmds=all_cmds(), arg_pool=POOL, group_depth=3, max_args=6,
                   max_items=8 if tier == "quick" else 14, depth=0, dangling=False, moddoc=False)
     return st.fixed_dictionaries({"module": G.module(p), "layout": G.layout_choices(40), "crlf": st.booleans(),
                                   "eof_newline": st.booleans(), "bom": st.sampled_from([False, False, False, True]),
+                                  # doccomment-shaped bracket comments on one line, not followed by a command
+                                  "oneline": st.sampled_from([0, 0, 1, 2]),
+                                  "arity_case": st.sampled_from(["lower", "UPPER", "Title"]),
                                   "arity": G.weighted((3, st.just([])), (1, st.lists(st.tuples(st.sampled_from(["set", "option", "add_test", "ct_add_test", "ct_add_section",
                                                                                "cpp_class", "cpp_member", "cpp_attr", "cpp_constructor"]),
                                                               st.sampled_from([[], ["${args@}"], ['"${a@};${b}"'], ["${x@}", "${y}"]]),
@@ -78,19 +87,22 @@ def build(case):
         it["args"] = _fix_at(it["args"])
         items.append(it)
     module = {"moddoc": None, "items": items}
-    prelude = "".join(f"function({c})\nendfunction()\n" for c in CMDS)
+    prelude = "".join(f"function({c})\nendfunction()\n" for c in all_cmds())
     body = R.render(module, case["layout"], eof_newline=True)
     # commands CMinx knows, invoked with argument lists that only expand at run time (arity unknown statically)
     for i, (cmd, args, doc) in enumerate(case.get("arity") or []):
         if doc is not None:
             body += "#[[[\n# " + doc + "\n#]]\n"
-        body += cmd + "(" + " ".join(a.replace("@", str(900 + i)) for a in args) + ")\n"
+        spelled = {"UPPER": cmd.upper(), "Title": cmd.title()}.get(case.get("arity_case"), cmd)
+        body += spelled + "(" + " ".join(a.replace("@", str(900 + i)) for a in args) + ")\n"
+    for i in range(case.get("oneline") or 0):
+        body += ["#[[[ one line, nothing follows #]]\n", "  #[[[ mentions @module but is no module doccomment #]]\n"][i % 2]
     if not case["eof_newline"] and body.endswith("\n"):
         body = body[:-1]
     text = prelude + body
     if case["crlf"]:
         text = text.replace("\r\n", "\n").replace("\n", "\r\n")
-    return module, text, len(CMDS) * 2
+    return module, text, len(all_cmds()) * 2
 
 
 def cmake_trace(path, workdir):
@@ -195,7 +207,7 @@ def evaluate(case):
     got_body = got[prelude_cmds:len(got) - n_extra] if n_extra else got[prelude_cmds:]
     extra_got = got[len(got) - n_extra:] if n_extra else []
     extra_want = [(cmd, [a.replace("@", str(900 + i)) for a in args]) for i, (cmd, args, doc) in enumerate(case.get("arity") or [])]
-    if [(c, a) for c, a in extra_got] != extra_want:
+    if [(c.lower(), a) for c, a in extra_got] != extra_want:
         res.fail("argument-boundaries", f"run-time arity commands: expected {extra_want!r} got {extra_got!r}")
     # CRLF: arguments spanning lines carry \r\n in the source
     conv = (lambda s: s.replace("\r\n", "\n").replace("\n", "\r\n")) if case["crlf"] else (lambda s: s)
@@ -256,6 +268,9 @@ def evaluate(case):
     # (b) CMake itself, for a deterministic sample
     if case.get("arity"):
         res.labels.append("runtime-arity-commands")
+        res.labels.append("known-command-case:" + (case.get("arity_case") or "lower"))
+    if case.get("oneline"):
+        res.labels.append("one-line-dangling-doccomment")
     if int(digest(case)[:2], 16) % 4 == 0 and not case.get("arity"):
         res.labels.append("cmake-differential")
         d = os.path.join(scratch_dir(), "c05")
